@@ -574,9 +574,15 @@ def r7(ctx):
             if c.kind == "method_unknown":
                 if t not in KERNEL_METHODS_MODELLED:
                     unknown.append((cs, "." + t + "()"))
+            elif t == "numpy.full" and isinstance(cs.node, ast.Call) and len(cs.node.args) == 2 and not cs.node.keywords \
+                    and isinstance(cs.node.args[1], ast.Constant) and isinstance(cs.node.args[1].value, float):
+                continue                                    # np.full(shape, <float literal>): a float64 array in both worlds, like np.zeros
             elif t not in KERNEL_CALLS_MODELLED:
                 unknown.append((cs, t))
         for n in Resolver.walk_own(fi.node):
+            if isinstance(n, ast.Subscript) and isinstance(n.value, ast.Subscript) and isinstance(n.value.value, ast.Name) \
+                    and not any(isinstance(x, ast.Slice) for x in ast.walk(n.value.slice)):
+                continue                                    # a[i][j]: element j of row view i, the same element as a[i, j]
             if isinstance(n, ast.Subscript) and not isinstance(n.value, (ast.Name, ast.Attribute)):
                 unknown.append((None, f"subscript of an expression `{unparse(n, 50)}`"))
         if unknown:
